@@ -605,6 +605,117 @@ func checkC01(p *core.Program, r *core.Report) {
 	c01R10(p, r)
 	r.Rule("R11", "failure bubbles from the run that was failed: in the main loop, after failRun(r) on a path that goes round the loop again, the loop's current run is r — the next iteration finds r exited and failed and goes on to r's parent; if the loop stays on another run (the child whose failure is being passed on), the grandparents are never failed and stay active when the sprint ends")
 	c01R11(p, r, e)
+	r.Rule("R12", "a run that has failed gets no child: every creation of a run with a parent in the main loop (runs.NewRun, also inside a helper of the loop) either is controlled by a test that the parent's status is not failed, or is preceded on every path — with no node visited in between — by the test `parent.Status() == failed` whose true side clears session.pushedFlow; otherwise a flow pushed by an earlier action of the node in which the run then failed is entered under the failed run, and when that child ends nobody resumes or fails the grandparents: the session is handed back completed with runs still active")
+	c01R12(p, r, e)
+}
+
+// c01R12: no child for a failed run.
+func c01R12(p *core.Program, r *core.Report, e *engineFns) {
+	pushed := p.FieldOf("flows/engine", "session", "pushedFlow")
+	if pushed == nil {
+		r.Errorf("engine anchor session.pushedFlow not found")
+		return
+	}
+	strip := func(v ssa.Value) ssa.Value {
+		for {
+			switch x := v.(type) {
+			case *ssa.ChangeInterface:
+				v = x.X
+				continue
+			case *ssa.MakeInterface:
+				v = x.X
+				continue
+			}
+			return core.StripConv(v)
+		}
+	}
+	// the run whose status a condition compares with "failed", and whether the edge means failed
+	failedTest := func(ce core.CondEdge) (ssa.Value, bool, bool) {
+		bo, ok := ce.Cond.(*ssa.BinOp)
+		if !ok || (bo.Op != token.EQL && bo.Op != token.NEQ) {
+			return nil, false, false
+		}
+		for _, pair := range [][2]ssa.Value{{bo.X, bo.Y}, {bo.Y, bo.X}} {
+			c, isCall := strip(pair[0]).(*ssa.Call)
+			if !isCall || !c.Call.IsInvoke() || c.Call.Method.Name() != "Status" {
+				continue
+			}
+			if sv, isS := core.ConstString(pair[1]); isS && sv == "failed" {
+				return strip(c.Call.Value), (bo.Op == token.EQL) == ce.Taken, true
+			}
+		}
+		return nil, false, false
+	}
+	callsVisit := func(b *ssa.BasicBlock) bool {
+		for _, in := range b.Instrs {
+			if c, ok := in.(*ssa.Call); ok && c.Call.StaticCallee() == e.visit {
+				return true
+			}
+		}
+		return false
+	}
+	n := 0
+	for _, ec := range core.EffectiveCalls(e.loop, 2) {
+		g := ec.Inner.Common().StaticCallee()
+		if g == nil || g.Name() != "NewRun" || core.RelPkg(core.FuncPkgPath(g)) != "flows/runs" || len(ec.Inner.Common().Args) < 3 {
+			continue
+		}
+		parent := strip(ec.Inner.Common().Args[2])
+		outer, isCall := ec.Outer.(*ssa.Call)
+		if prm, isP := parent.(*ssa.Parameter); isP && isCall && ec.Outer != ec.Inner.Instr {
+			// the run is created in a helper: the parent is what the loop passes
+			for k, fp := range prm.Parent().Params {
+				if fp == prm && k < len(outer.Call.Args) {
+					parent = strip(outer.Call.Args[k])
+				}
+			}
+		}
+		n++
+		ok, why := false, "no test of the parent's status precedes it"
+		// (i) controlled by `status != failed`
+		for _, ce := range core.ControllingConds(ec.Outer.Block()) {
+			if v, meansFailed, is := failedTest(ce); is && !meansFailed && v == parent {
+				ok = true
+			}
+		}
+		// (ii) a conditional clear of the pushed flow that every path to the creation has passed since the last visit
+		if !ok {
+			core.EachInstr(e.loop, false, func(_ *ssa.Function, in ssa.Instruction) {
+				st, isSt := in.(*ssa.Store)
+				if !isSt || ok || core.FieldAddrVar(st.Addr) != pushed || !core.IsNilConst(st.Val) {
+					return
+				}
+				conds := core.ControllingConds(st.Block())
+				tested := false
+				for _, ce := range conds {
+					if v, meansFailed, is := failedTest(ce); is && meansFailed && v == parent {
+						tested = true
+					}
+				}
+				if !tested || len(conds) == 0 {
+					return
+				}
+				first := conds[len(conds)-1].If.Block() // the outermost condition: where the test starts
+				if !first.Dominates(ec.Outer.Block()) {
+					why = "the test that clears the pushed flow for a failed run (" + p.Pos(st.Pos()) + ") is not made on every path to the creation"
+					return
+				}
+				// no node is visited between the test and the creation
+				stop := map[*ssa.BasicBlock]bool{first: true}
+				for b := range core.Reachable(first, stop) {
+					if b != first && callsVisit(b) && core.Reachable(b, stop)[ec.Outer.Block()] {
+						why = "a node is visited (" + p.Pos(b.Instrs[0].Pos()) + ") between the test of the parent's status and the creation of its child"
+						return
+					}
+				}
+				ok = true
+			})
+		}
+		r.Check(ok, "R12", fmt.Sprintf("continueUntilWait/NewRun#%d/parent-not-failed", n), p.Pos(ec.Inner.Pos()), "the parent's failed status is excluded before the child is created",
+			"a run is created under a parent that may have failed ("+why+"): [enter_flow C, enter_flow <missing>] in a sub-flow starts C under the failed run, and when C ends the session completes with the grandparent run still active")
+	}
+	r.Count("child_run_creations_in_loop", n)
+	r.Require("child_run_creations_in_loop", n, 1)
 }
 
 func blockLabel(b *ssa.BasicBlock) string {
